@@ -504,6 +504,10 @@ func main() {
 		hunt(o)
 		return
 	}
+	if o.Extra == "chunt" {
+		chunt(o) // constoracle.go / conststream.go: const vectors, views, every operand container kind
+		return
+	}
 	if o.Extra == "known" {
 		known(o)
 		return
@@ -584,6 +588,12 @@ func main() {
 	if err := mw.Flush(); err != nil {
 		Die("%v", err)
 	}
+	// read-only sparse vectors, their views and consumers (constvec.go): a third family of shards
+	cc := ""
+	if o.Extra != "" {
+		cc = strings.TrimSuffix(o.Extra, ".jsonl") + ".const.jsonl"
+	}
+	writeCCases(o, cc)
 }
 
 // matrix corpus: <corpus>.matrix.jsonl next to the vector corpus
